@@ -265,8 +265,8 @@ func poolPhase(e *common.Env, maxLen int) map[string]any {
 			e.Fail("pool-interference", fmt.Sprintf("a stream with the filter chain [%s] cannot be written: %v", chain, err), map[string]any{"chain": chain})
 			continue
 		}
+		emptyPools()
 		for _, mode := range []string{"read to EOF, close", "read a part, close", "two streams of the chain open at once"} {
-			emptyPools()
 			var problems []string
 			switch mode {
 			case "read to EOF, close":
@@ -306,6 +306,7 @@ func poolPhase(e *common.Env, maxLen int) map[string]any {
 				e.Fail("pool-interference",
 					fmt.Sprintf("after decoding a stream with /Filter [%s] (%s): %s", chain, mode, problems[0]),
 					map[string]any{"chain": chain, "mode": mode, "problems": problems})
+				emptyPools() // do not let this chain's damage reach the next mode
 			}
 		}
 	}
